@@ -105,15 +105,16 @@ OPS_ANY = ['etag-mismatch', 'drop-etag', 'drop-stag', 'two-roots', 'text-after-r
            'charref-0', 'charref-fffe', 'charref-d800', 'charref-110000', 'charref-1', 'charref-empty', 'raw-control', 'raw-ffff',
            'bad-name-start', 'space-after-lt', 'attr-no-value', 'truncate', 'undeclared-entity',
            'recursive-entity', 'recursive-entity-indirect', 'ext-entity-in-attr', 'unparsed-entity-in-content', 'entity-unbalanced', 'lt-via-entity-in-attr',
-           'pe-in-decl-internal', 'etag-with-attr', 'nested-doctype', 'doctype-after-root', 'amp-in-entity-value', 'attr-unquoted']
+           'pe-in-decl-internal', 'etag-with-attr', 'nested-doctype', 'doctype-after-root', 'amp-in-entity-value', 'attr-unquoted', 'dup-attr-many']
 OPS_NS = ['ns-unbound-elem', 'ns-unbound-attr', 'ns-xml-rebind', 'ns-xmlns-prefix', 'ns-empty-prefix-decl', 'ns-two-colons', 'ns-leading-colon',
-          'ns-trailing-colon', 'ns-dup-expanded-attr', 'ns-bind-to-xmlns-uri', 'ns-bind-other-to-xml-uri', 'ns-default-xmlns-uri', 'ns-pi-target-colon']
+          'ns-trailing-colon', 'ns-dup-expanded-attr', 'ns-bind-to-xmlns-uri', 'ns-bind-other-to-xml-uri', 'ns-default-xmlns-uri', 'ns-pi-target-colon',
+          'ns-sibling-scope', 'ns-cousin-scope', 'ns-sibling-scope-attr', 'ns-child-scope-after-end', 'ns-dup-expanded-attr-many']
 OPS_BYTES = ['utf8-c0-80', 'utf8-surrogate', 'utf8-f4-90', 'utf8-lone-cont', 'utf8-5byte', 'utf8-trunc-mid', 'utf8-trunc-eof', 'utf8-fe', 'utf8-overlong-e0']
 # operators that remain single-constraint violations under XML 1.1 as well (1.1 has no second witness, keep to clear-cut ones)
 OPS_V11 = {'etag-mismatch', 'drop-etag', 'two-roots', 'text-after-root', 'cdata-after-root', 'dup-attr', 'missing-eq', 'no-ws-attrs', 'lt-in-attr',
            'bare-amp-text', 'cdata-end-in-text', 'dashdash-in-comment', 'charref-0', 'charref-fffe', 'charref-d800', 'charref-110000', 'raw-control',
            'truncate', 'attr-no-value', 'bad-name-start', 'pi-target-xml', 'ns-unbound-elem', 'ns-two-colons', 'utf8-c0-80', 'utf8-surrogate',
-           'utf8-f4-90', 'utf8-lone-cont', 'no-root', 'etag-with-attr', 'attr-unquoted'}
+           'utf8-f4-90', 'utf8-lone-cont', 'no-root', 'etag-with-attr', 'attr-unquoted', 'ns-sibling-scope', 'ns-cousin-scope', 'ns-child-scope-after-end', 'dup-attr-many', 'ns-dup-expanded-attr-many'}
 
 def _add_decls(text, toks, d, decls, rootname=None):
     """insert markup declarations into the internal subset (creating a DOCTYPE if there is none)"""
@@ -284,6 +285,23 @@ def mutate(text, d, op, k):
                'ns-bind-other-to-xml-uri': ' xmlns:zzq="http://www.w3.org/XML/1998/namespace"',
                'ns-default-xmlns-uri': ' xmlns="http://www.w3.org/2000/xmlns/"'}[op]
         return ins(t[1] + m.end(), add)
+    # a prefix that IS declared, but on a sibling / cousin / child: out of scope where it is used (scope stacks are recycled per depth)
+    if op == 'ns-sibling-scope': return content_insert('<zzd xmlns:zzs="urn:zzs"/><zzs:u/>')
+    if op == 'ns-cousin-scope': return content_insert('<zzd><zze xmlns:zzs="urn:zzs">t</zze></zzd><zzd><zzs:u/></zzd>')
+    if op == 'ns-sibling-scope-attr': return content_insert('<zzd xmlns:zzs="urn:zzs" zzs:a="1"></zzd><zzd zzs:a="1"/>')
+    if op == 'ns-child-scope-after-end': return content_insert('<zzd><zze xmlns:zzs="urn:zzs"/><zzs:u/></zzd>')
+    # duplicate detection switches to a hash table above 100 attributes: same violations with 101..140 attributes on the element
+    if op == 'ns-dup-expanded-attr-many':
+        n = 97 + (k % 40); pos = k % 3
+        fill = ''.join(' f%d="%d"' % (i, i) for i in range(n))
+        clash = ' zz1:a="1" zz2:a="2"'
+        body = (clash + fill) if pos == 0 else (fill[:len(fill) // 2] + clash + fill[len(fill) // 2:]) if pos == 1 else (' zz1:a="1"' + fill + ' zz2:a="2"')
+        return content_insert('<zzm xmlns:zz1="urn:zz" xmlns:zz2="urn:zz"' + body + '/>')
+    if op == 'dup-attr-many':
+        n = 99 + (k % 40); pos = k % 3
+        fill = ''.join(' f%d="%d"' % (i, i) for i in range(n))
+        body = (' dup="1" dup="2"' + fill) if pos == 0 else (' dup="1"' + fill + ' dup="2"') if pos == 1 else (fill + ' f%d="x"' % (k % n))
+        return content_insert('<zzm' + body + '/>')
     if op == 'ns-two-colons': return content_insert('<a:b:c xmlns:a="urn:a"/>')
     if op == 'ns-leading-colon': return content_insert('<:a/>')
     if op == 'ns-trailing-colon': return content_insert('<a: xmlns:a="urn:a"/>')
